@@ -186,6 +186,28 @@ func VerifC01Typed() {
 	}
 	d, derr2 := c.DescribeTable(vCtx, &dynamodb.DescribeTableInput{TableName: aws.String(vTbl)})
 	nd.Assert(derr2 == nil && d.Table.ItemCount != nil && *d.Table.ItemCount == 3, "C01-typed-itemcount")
+	if ht == types.ScalarAttributeTypeN {
+		// one number, several numerals: 0, -0 and 0.0 name the same item; so do 5, 5.0 and 0.5e1
+		for gi, group := range [][]string{{"0", "-0", "0.0"}, {"5", "5.0", "0.5e1"}} {
+			w := nd.Choice("numeral-written", 3)
+			r := nd.Choice("numeral-read", 3)
+			it := vItem{"p": vN(group[w]), "s": val(rt, 0), "v": vS("z" + string(rune('0'+gi)))}
+			nd.Assert(vPut(c, it) == nil, "C01-typed-put-noerr")
+			got, gerr := vGet(c, vItem{"p": vN(group[r]), "s": val(rt, 0)})
+			v, _ := vGetS(got, "v")
+			nd.Assert(gerr == nil && v == "z"+string(rune('0'+gi)), "C01-typed-number-key-found-under-any-numeral")
+			// an update through another numeral changes that item and creates none
+			_, uerr := c.UpdateItem(vCtx, &dynamodb.UpdateItemInput{TableName: aws.String(vTbl), Key: vItem{"p": vN(group[(r+1)%3]), "s": val(rt, 0)},
+				UpdateExpression: aws.String("SET w = :x"), ExpressionAttributeValues: vItem{":x": vS("u")}})
+			nd.Assert(uerr == nil, "C01-typed-update-noerr")
+			_, derr3 := c.DeleteItem(vCtx, &dynamodb.DeleteItemInput{TableName: aws.String(vTbl), Key: vItem{"p": vN(group[(w+1)%3]), "s": val(rt, 0)}})
+			nd.Assert(derr3 == nil, "C01-typed-delete-noerr")
+			gone, gerr2 := vGet(c, vItem{"p": vN(group[w]), "s": val(rt, 0)})
+			nd.Assert(gerr2 == nil && len(gone) == 0, "C01-typed-number-key-deleted-under-any-numeral")
+		}
+		d2, derr4 := c.DescribeTable(vCtx, &dynamodb.DescribeTableInput{TableName: aws.String(vTbl)})
+		nd.Assert(derr4 == nil && *d2.Table.ItemCount == 3, "C01-typed-itemcount-after-numeral-round")
+	}
 	vInvariant(c, "C01-typed")
 	nd.Reach("end")
 }
